@@ -26,7 +26,11 @@ func shortFn(fn *ssa.Function) string {
 		return shortFn(fn.Parent()) + "$" + name
 	}
 	if recv := fn.Signature.Recv(); recv != nil {
-		return "(" + recvName(recv.Type()) + ")." + fn.Name()
+		name := fn.Name()
+		if i := strings.Index(name, "["); i >= 0 {
+			name = name[:i]
+		}
+		return "(" + recvName(recv.Type()) + ")." + name
 	}
 	if o := fn.Origin(); o != nil && o != fn {
 		return o.Name()
@@ -54,7 +58,11 @@ func baseFn(fn *ssa.Function) string {
 			return baseFn(fn.Parent()) + name[i:]
 		}
 	}
-	return fn.Name()
+	name := fn.Name()
+	if i := strings.Index(name, "["); i >= 0 {
+		name = name[:i]
+	}
+	return name
 }
 
 func fnPkgPath(fn *ssa.Function) string {
@@ -377,7 +385,7 @@ func (ex *Exec) havocModifies(st *State, ct *Contract, e *env, pre map[string]st
 		isObjArray := strings.HasPrefix(sort, "(Array Int ")
 		if !hit {
 			// fields of objects allocated by the callee are unconstrained; pre-existing objects keep values
-			if isObjArray && (strings.HasPrefix(r, "F!") || strings.HasPrefix(r, "M!") || strings.HasPrefix(r, "S!") || strings.HasPrefix(r, "B!")) && ct.allocates {
+			if isObjArray && (strings.HasPrefix(r, "F!") || strings.HasPrefix(r, "M!") || strings.HasPrefix(r, "S!") || strings.HasPrefix(r, "B!")) && ct.allocatesRegion(r) {
 				old := st.region(r, sort)
 				st.havocRegion(r)
 				nw := st.heap[r]
@@ -405,7 +413,7 @@ func (ex *Exec) havocModifies(st *State, ct *Contract, e *env, pre map[string]st
 			}
 			st.assume("(forall ((i Int)) (! (=> (and (<= 0 i) (< i " + ol + ")) (= (select " + nw + " i) (select " + old + " i))) :pattern ((select " + nw + " i))))")
 		}
-		if strings.HasPrefix(r, "I!") || r == "G!dyn" || r == "G!wraps" || r == "G!jsonof" {
+		if strings.HasPrefix(r, "I!") || r == "G!dyn" || r == "G!wraps" || r == "G!jsonof" || strings.HasPrefix(r, "G!g_ev") {
 			st.assume("(forall ((r Int)) (! (=> (select " + a0 + " r) (= (select " + nw + " r) (select " + old + " r))) :pattern ((select " + nw + " r))))")
 		}
 	}
